@@ -21,7 +21,7 @@ RULE = ('bases: orders 1..6 (8 thorough), open / non-open / periodic with every 
         'minimum sizes, random affine placement; points: every knot from both sides, both ends, span interiors, periodic '
         'points several periods away; d = 0..p+1.  distinct = distinct (basis, t, d, side); non-trivial = t in the domain '
         '(after wrapping) so that a non-zero row is demanded.')
-REQUIRED_TAGS = ['periodic', 'open', 'left@interior-knot-mult>=2', 'periodic-wrap-n<p', 'd>=p', 'left@start', 'at-end', 'outside-periodic']
+REQUIRED_TAGS = ['multi-point-call', 'multi-point:left', 'periodic', 'open', 'left@interior-knot-mult>=2', 'periodic-wrap-n<p', 'd>=p', 'left@start', 'at-end', 'outside-periodic']
 TOLF = F(1, 10 ** 10)
 
 
@@ -53,15 +53,27 @@ def generate(rng, tier):
             for d in (ds if rng.random() < 0.5 else rng.sample(ds, min(3, len(ds)))):
                 for right in (True, False):
                     specs.append({'basis': b, 't': t, 'd': d, 'right': right})
+        # several points in ONE call, in shuffled (unsorted) order: the rows must not depend on
+        # each other (a kernel that carries state from one point to the next shows up only here)
+        if len(pts) >= 2:
+            for _ in range(2):
+                ts = list(pts)
+                rng.shuffle(ts)
+                ts = ts[:6]
+                specs.append({'basis': b, 'ts': ts, 'd': rng.randint(0, max(0, p - 1)), 'right': rng.random() < 0.4})
     return specs
 
 
 def model_line(s):
+    if 'ts' in s:
+        return line('basis_eval_batch', gen.enc_basis(s['basis']), gen.TOL, s['ts'], s['d'], s['right'])
     return line('basis_eval', gen.enc_basis(s['basis']), gen.TOL, s['t'], s['d'], s['right'])
 
 
 def run_impl(sp, s):
     b = gen.mk_basis(sp, s['basis'])
+    if 'ts' in s:
+        return b.evaluate(list(s['ts']), s['d'], s['right']).tolist()
     dense = b.evaluate(s['t'], s['d'], s['right'])
     if s['d'] >= s['basis']['order']:
         return [dense[0].tolist(), [], []]
@@ -73,6 +85,17 @@ def oracle(sp, s):
     """Property C01 stated directly against the real code."""
     b = gen.mk_basis(sp, s['basis'])
     fails = []
+    if 'ts' in s:
+        N = b.evaluate(list(s['ts']), s['d'], s['right'])
+        Ns = b.evaluate(list(s['ts']), s['d'], s['right'], sparse=True).toarray()
+        for i, t in enumerate(s['ts']):
+            want = exact.basis_row(s['basis'], t, s['d'], s['right'])
+            if not exact.close(N[i], want, RTOL, ATOL):
+                fails.append('row %d of a multi-point call (t=%r) differs from Cox-de Boor: got %s want %s' % (i, t, N[i].tolist(), [float(x) for x in want]))
+                break
+        if not np.allclose(N, Ns, rtol=1e-12, atol=1e-13):
+            fails.append('sparse and dense forms differ in a multi-point call')
+        return fails
     want = exact.basis_row(s['basis'], s['t'], s['d'], s['right'])
     dense = b.evaluate(s['t'], s['d'], s['right'])
     if dense.shape != (1, len(want)):
@@ -100,6 +123,8 @@ def _effective(s):
 
 
 def tags(s, res):
+    if 'ts' in s:
+        return ['multi-point-call', 'multi-point:' + ('right' if s['right'] else 'left')]
     b = s['basis']
     info = gen.basis_info(b)
     t, d, right = s['t'], s['d'], s['right']
@@ -127,6 +152,8 @@ def tags(s, res):
 
 
 def nontrivial(s, res):
+    if 'ts' in s:
+        return True
     info = gen.basis_info(s['basis'])
     return info['k'] >= 0 or info['start'] <= s['t'] <= info['end']
 
